@@ -47,3 +47,6 @@
 ; (1 int32, 2 int64, 3 uint32, 4 bool, 5 sint32, 6 sint64): the wire interpretation osmformat.proto
 ; prescribes per field is checked against it
 ; ghost msgKind (Array Int Int)
+; xmlDecodes: number of DecodeElement calls made so far (osmxml scanner: an iteration of the token loop
+; that decoded an element delivers it - it never goes round again, C03)
+; ghost xmlDecodes Int
